@@ -309,6 +309,9 @@ def run(rep, facts, tier):
     # participant removal polarity and the one-participant-at-a-time discipline of the discovery database (decided under C12) are necessary for the matched set too
     from rdv import report as _report
     _report.borrow(rep, facts, tier, 'C12', {'R12.3': 'R11.10', 'R12.6': 'R11.11'})
+    # the verdict that decides between "matched" and "incompatible-QoS event" is taken with the right roles (decided under C10; after seed C11g: the writer side asked
+    # requested.compliance_failure_wrt(offered), so a Reliable writer refused a BestEffort reader and a BestEffort writer matched a Reliable one)
+    _report.borrow(rep, facts, tier, 'C10', {'R10.3': 'R11.15'})
 
     # ------------------------------------------------------------ R11.6 crossed roles (shared lint, rdv/swaplint.py)
     from rdv import swaplint
